@@ -29,6 +29,19 @@ Check C10_post_accept_sound : forall H auth fields ak region service seed,
     sgv = calculate_signature H policy secret date region service.
 Print Assumptions C10_post_accept_sound.
 
+(* exactly: conversely, a form meeting every one of these conditions is accepted with that identity *)
+Theorem C10_post_accept_complete : forall H auth fields f policy credv datev sgv cred iso date secret,
+  auth = Some f ->
+  find_field (b "policy") fields = Some policy -> is_base64_encoded policy = true ->
+  find_field (b "x-amz-algorithm") fields = Some (b "AWS4-HMAC-SHA256") ->
+  find_field (b "x-amz-credential") fields = Some credv -> parse_credential_full credv = Some cred ->
+  find_field (b "x-amz-date") fields = Some datev -> parse_amz_date datev = Some (iso, date) -> c_date cred = date ->
+  find_field (b "x-amz-signature") fields = Some sgv -> f (c_ak cred) = Some secret ->
+  sgv = calculate_signature H policy secret date (c_region cred) (c_service cred) ->
+  post_check H auth fields = Accept (c_ak cred) (c_region cred) (c_service cred) None.
+Proof. exact post_accept_complete. Qed.
+Print Assumptions C10_post_accept_complete.
+
 (* known finding post-policy-not-evaluated, as a theorem about the faithful model: "accepted => policy satisfied" cannot
    hold because the verdict is a function of five fields only; whatever the policy demands of key, bucket, other
    fields, content length or time has no influence *)
